@@ -1059,6 +1059,7 @@ pub fn project(name: &str, trace: &[Value]) -> Vec<Value> {
         "progress" => progress(trace),
         "hostile" => hostile(trace),
         "recvlimits" => recvlimits(trace),
+        "zerortt" => crate::proj_c17::zerortt(trace),
         "master" => trace.to_vec(),
         o => panic!("unknown projection {o}"),
     }
